@@ -322,6 +322,7 @@ fn e2_channel(tier: Tier, k: usize, ctx: &mut Ctx) {
 		judge_channel(k, o, &tag, &sched::fmt_schedule(res), &mut fails);
 	};
 	let stats = sched::explore(tier.pick(None, None), 3_000_000, &mut body, &mut judge);
+	sched::report(ctx, &stats);
 	finish_e2(ctx, &tag, stats, outcomes, nontrivial, fails);
 }
 
@@ -390,6 +391,7 @@ fn e2_two_channels(tier: Tier, ctx: &mut Ctx) {
 		judge_channel(1, &o.1, "two channels, kind B", &sched::fmt_schedule(res), &mut fails);
 	};
 	let stats = sched::explore(tier.pick(Some(5), None), 3_000_000, &mut body, &mut judge);
+	sched::report(ctx, &stats);
 	finish_e2(ctx, "two channels", stats, outcomes, nontrivial, fails);
 }
 
@@ -490,6 +492,7 @@ fn e2_sound_volume(tier: Tier, ctx: &mut Ctx) {
 		}
 	};
 	let stats = sched::explore(tier.pick(Some(3), Some(5)), 4_000_000, &mut body, &mut judge);
+	sched::report(ctx, &stats);
 	finish_e2(ctx, "sound volume", stats, outcomes, nontrivial, fails);
 }
 
@@ -576,6 +579,7 @@ fn e2_clock_stop(tier: Tier, ctx: &mut Ctx) {
 		}
 	};
 	let stats = sched::explore(tier.pick(Some(3), Some(5)), 4_000_000, &mut body, &mut judge);
+	sched::report(ctx, &stats);
 	finish_e2(ctx, "clock stop", stats, outcomes, nontrivial, fails);
 }
 
@@ -671,6 +675,7 @@ fn e2_first_callback(tier: Tier, ctx: &mut Ctx) {
 		}
 	};
 	let stats = sched::explore(tier.pick(Some(3), Some(4)), 6_000_000, &mut body, &mut judge);
+	sched::report(ctx, &stats);
 	finish_e2(ctx, "first callback", stats, outcomes, nontrivial, fails);
 }
 
@@ -1381,6 +1386,15 @@ fn cross_kind(ctx: &mut Ctx) {
 							format!("{}(3 callbacks fade); {}(3 callbacks fade) -> states {:?}", names[a], names[b], states),
 						);
 					}
+					// both commands were consumed: the state is the one the later command leads to - later in the order of issue,
+					// or later in kira's fixed reading order pause < resume < stop (the statement does not fix the order among kinds)
+					let accepted = [b, a.max(b)];
+					if !accepted.contains(&class(states[0])) {
+						ctx.fail(
+							format!("one of two commands of different kinds issued between the same two callbacks is lost :: cross-kind {}", if streaming { "streaming" } else { "static" }),
+							format!("{}(3 callbacks fade); {}(3 callbacks fade) -> states {:?}; expected the fade of '{}' or of '{}'", names[a], names[b], states, names[b], names[a.max(b)]),
+						);
+					}
 					ctx.nontrivial(hash64(&("pair", streaming, a, b)));
 					if let Some(st) = stats {
 						h.stop(instant());
@@ -1480,8 +1494,80 @@ fn cross_kind(ctx: &mut Ctx) {
 		}
 		ctx.nontrivial(hash64(&"supersede"));
 	}
-	ctx.traces += 19;
-	ctx.transitions += 20 + 12 * 7 + 26;
+	// 7. a pause issued while a scheduled resume is pending cancels it (sound, streaming sound, track)
+	for subject in 0..3usize {
+		ctx.evals += 1;
+		let mut m = rig::manager(8, 1, rig::caps(2), MainTrackBuilder::new());
+		let first = pacer::count();
+		let mut stats = None;
+		let mut track = None;
+		let mut h: Option<Box<dyn crate::probes::SoundHandle>> = None;
+		match subject {
+			0 => h = Some(Box::new(m.play(dc_loop(8, 0.5)).unwrap())),
+			1 => {
+				pacer::set_mode(pacer::Mode::Pacer);
+				let frames: Vec<Frame> = (0..16).map(|i| Frame::new(noise(i), noise(i + 5))).collect();
+				let (dec, st) = ScriptedDecoder::new(frames, 8, vec![3, 1, 2], 2);
+				stats = Some(st);
+				h = Some(Box::new(m.play(StreamingSoundData::from_decoder(dec).loop_region(Region::from(..))).map_err(|_| ()).unwrap()));
+			}
+			_ => {
+				let mut t = m.add_sub_track(TrackBuilder::new()).unwrap();
+				let _ = t.play(dc_loop(8, 0.5)).unwrap();
+				track = Some(t);
+			}
+		}
+		let mut cb = |m: &mut Manager| {
+			if subject == 1 {
+				pacer::step_all_from(first, 8);
+			}
+			let mut b = [0.0f32; 2];
+			rig::callback(m, &mut b, 1, 2);
+		};
+		let later = StartTime::Delayed(Duration::from_secs_f64(4.0 / 8.0));
+		cb(&mut m);
+		match (&mut h, &mut track) {
+			(Some(h), _) => h.pause(instant()),
+			(_, Some(t)) => t.pause(instant()),
+			_ => {}
+		}
+		cb(&mut m);
+		match (&mut h, &mut track) {
+			(Some(h), _) => h.resume_at(later, instant()),
+			(_, Some(t)) => t.resume_at(later, instant()),
+			_ => {}
+		}
+		cb(&mut m);
+		match (&mut h, &mut track) {
+			(Some(h), _) => h.pause(instant()),
+			(_, Some(t)) => t.pause(instant()),
+			_ => {}
+		}
+		let mut states = vec![];
+		for _ in 0..8 {
+			cb(&mut m);
+			states.push(match (&h, &track) {
+				(Some(h), _) => format!("{:?}", h.state()),
+				(_, Some(t)) => format!("{:?}", t.state()),
+				_ => String::new(),
+			});
+		}
+		if states.iter().any(|s| s != "Paused") {
+			ctx.fail(
+				format!("a pause issued while a scheduled resume is pending is lost (the superseded resume fires) :: cross-kind {}", ["static sound", "streaming sound", "track"][subject]),
+				format!("pause; callback; resume_at(delayed 4 callbacks); callback; pause; then states {:?}, expected Paused throughout", states),
+			);
+		}
+		ctx.nontrivial(hash64(&("pause cancels", subject)));
+		if let (Some(st), Some(mut h)) = (stats, h) {
+			h.stop(instant());
+			cb(&mut m);
+			drop(m);
+			crate::probes::reap_decoder(first, &st);
+		}
+	}
+	ctx.traces += 22;
+	ctx.transitions += 20 + 12 * 7 + 26 + 36;
 	ctx.state(hash64(&"cross"));
 	ctx.outcome(hash64(&"cross"));
 }
